@@ -132,7 +132,7 @@ class LoopMixin:
             return v
         if isinstance(v, VNone):
             raise Unsupported(f"loop assigns '{name}' which is None at loop entry: declare its kind in Loop.kinds")
-        if isinstance(v, (VInt, VReal, VBool, VExt, VObj, VEnum, VOpt, VTuple)):
+        if isinstance(v, (VInt, VReal, VBool, VExt, VObj, VEnum, VOpt, VTuple, VRaw)):
             nv = v.kind.fresh('hv_' + name)
             st.assume(*self.wf(nv, st))
             return nv
